@@ -47,7 +47,7 @@ def run(tier, seed):
             v.violation(viol['sig'], viol.get('replay'))
     # metadata against the file after resumed transfers outside the kill grid: leftovers of an attempt with another chunk
     # size (equal / different chunk count), and a sparse file beyond 4 GiB (chunk offsets cross 2^32)
-    sp = vlib.run_vh_sharded(['xfer-special', '-seed', str(seed), '-groups', 'rechunk,largemeta,prepop,dupflip'], 6, timeout=1800)
+    sp = vlib.run_vh_sharded(['xfer-special', '-seed', str(seed), '-groups', 'rechunk,largemeta,prepop,dupflip,geometry'], 6, timeout=1800)
     for viol in sp['violations']:
         if viol['sig'].get('property') == 'C05':
             v.violation(viol['sig'], viol.get('replay'))
